@@ -2060,9 +2060,7 @@ class TypeAnalyser(SyntheticTypeVisitor[Type], TypeAnalyzerPluginInterface):
         final_unpack = None
         for item in items:
             # TODO: handle forward references here, they appear as Unpack[Any].
-            if isinstance(item, UnpackType) and not isinstance(
-                get_proper_type(item.type), TupleType
-            ):
+            if isinstance(item, UnpackType) and is_variadic_unpack(item):
                 if not num_unpacks:
                     new_items.append(item)
                 num_unpacks += 1
@@ -2080,6 +2078,20 @@ class TypeAnalyser(SyntheticTypeVisitor[Type], TypeAnalyzerPluginInterface):
         return TupleType(
             items, fallback=self.named_type("builtins.tuple", [any_type]), line=line, column=column
         )
+
+
+def is_variadic_unpack(item: UnpackType) -> bool:
+    """Is this an unpack of something of unknown length?
+
+    Unpack[tuple[int, str]] is not, but Unpack[tuple[int, Unpack[Ts]]] is (a Callable with
+    arguments after a variadic unpack is represented this way).
+    """
+    unpacked = get_proper_type(item.type)
+    if not isinstance(unpacked, TupleType):
+        return True
+    return any(
+        isinstance(it, UnpackType) and is_variadic_unpack(it) for it in unpacked.items
+    )
 
 
 TypeVarLikeList = list[tuple[str, TypeVarLikeExpr]]
